@@ -5,7 +5,7 @@ use crate::util::*;
 use embedded_graphics::{
     pixelcolor::Gray8,
     prelude::*,
-    primitives::{Circle, ContainsPoint, Ellipse, PrimitiveStyle, PrimitiveStyleBuilder, Rectangle, StrokeAlignment},
+    primitives::{Circle, ContainsPoint, Ellipse, PrimitiveStyle, PrimitiveStyleBuilder, Rectangle, StrokeAlignment, StrokeStyle, Styled},
 };
 use std::collections::BTreeMap;
 
@@ -29,6 +29,98 @@ fn style_of(w: &str, al: &str, stroke: &str, fill: &str) -> PrimitiveStyle<Gray8
         b = b.fill_color(Gray8::new(FILL));
     }
     b.build()
+}
+
+/// Entry points of the style API that build the same value in different ways must agree (each is a tiny constructor; a
+/// constructor that stores its argument in the wrong field, or a reset_* that clears the wrong field, shows up here).
+/// Returns a FAIL line naming the entry point.
+pub fn style_api_check(st: &PrimitiveStyle<Gray8>) -> Result<(), String> {
+    type PS = PrimitiveStyle<Gray8>;
+    type PB = PrimitiveStyleBuilder<Gray8>;
+    // PrimitiveStyle is #[non_exhaustive]: compare field by field (the fields are public)
+    type F = (Option<Gray8>, Option<Gray8>, u32, StrokeAlignment, StrokeStyle);
+    fn f(s: &PS) -> F {
+        (s.fill_color, s.stroke_color, s.stroke_width, s.stroke_alignment, s.stroke_style)
+    }
+    let empty: F = (None, None, 0, StrokeAlignment::Center, StrokeStyle::Solid);
+    if StrokeAlignment::default() != StrokeAlignment::Center {
+        return Err("FAIL entry point StrokeAlignment::default() is not Center".into());
+    }
+    if StrokeStyle::default() != StrokeStyle::Solid {
+        return Err("FAIL entry point StrokeStyle::default() is not Solid".into());
+    }
+    if f(&PS::new()) != empty {
+        return Err(format!("FAIL entry point PrimitiveStyle::new() = {:?}, expected no colours, width 0, Center, Solid", PS::new()));
+    }
+    if f(&PS::default()) != empty {
+        return Err(format!("FAIL entry point PrimitiveStyle::default() = {:?}", PS::default()));
+    }
+    if f(&PB::new().build()) != empty {
+        return Err(format!("FAIL entry point PrimitiveStyleBuilder::new().build() = {:?}", PB::new().build()));
+    }
+    if f(&PB::default().build()) != empty {
+        return Err(format!("FAIL entry point PrimitiveStyleBuilder::default().build() = {:?}", PB::default().build()));
+    }
+    // with_fill / with_stroke against the field-by-field value
+    if let Some(fc) = st.fill_color {
+        if f(&PS::with_fill(fc)) != (Some(fc), None, 0, StrokeAlignment::Center, StrokeStyle::Solid) {
+            return Err(format!("FAIL entry point PrimitiveStyle::with_fill({:?}) = {:?}", fc, PS::with_fill(fc)));
+        }
+        if st.stroke_color.is_none() && st.stroke_width == 0 && st.stroke_alignment == StrokeAlignment::Center && PS::with_fill(fc) != *st {
+            return Err(format!("FAIL entry point PrimitiveStyle::with_fill({:?}) differs from the builder's fill-only style", fc));
+        }
+    }
+    if let Some(sc) = st.stroke_color {
+        if f(&PS::with_stroke(sc, st.stroke_width)) != (None, Some(sc), st.stroke_width, StrokeAlignment::Center, StrokeStyle::Solid) {
+            return Err(format!("FAIL entry point PrimitiveStyle::with_stroke({:?}, {}) = {:?}", sc, st.stroke_width, PS::with_stroke(sc, st.stroke_width)));
+        }
+        if st.fill_color.is_none() && st.stroke_alignment == StrokeAlignment::Center && PS::with_stroke(sc, st.stroke_width) != *st {
+            return Err(format!("FAIL entry point PrimitiveStyle::with_stroke({:?}, {}) differs from the builder's stroke-only Center style", sc, st.stroke_width));
+        }
+    }
+    // From<&PrimitiveStyle> for the builder copies every field
+    if f(&PB::from(st).build()) != f(st) {
+        return Err(format!("FAIL entry point PrimitiveStyleBuilder::from(&style).build() = {:?}, style = {:?}", PB::from(st).build(), st));
+    }
+    // every setter / reset changes exactly its field: from a style with every field non-default (fields assigned directly,
+    // they are public) and from the style under test
+    let mut full = *st;
+    full.fill_color = Some(Gray8::new(7));
+    full.stroke_color = Some(Gray8::new(9));
+    full.stroke_width = 5;
+    full.stroke_alignment = StrokeAlignment::Outside;
+    full.stroke_style = StrokeStyle::Dotted;
+    if f(&full) != (Some(Gray8::new(7)), Some(Gray8::new(9)), 5, StrokeAlignment::Outside, StrokeStyle::Dotted) {
+        return Err("FAIL harness: field assignment".into());
+    }
+    for base in [full, *st] {
+        let b = || PB::from(&base);
+        let o = f(&base);
+        let checks: [(&str, PS, F); 7] = [
+            ("reset_fill_color", b().reset_fill_color().build(), (None, o.1, o.2, o.3, o.4)),
+            ("reset_stroke_color", b().reset_stroke_color().build(), (o.0, None, o.2, o.3, o.4)),
+            ("fill_color", b().fill_color(Gray8::new(33)).build(), (Some(Gray8::new(33)), o.1, o.2, o.3, o.4)),
+            ("stroke_color", b().stroke_color(Gray8::new(44)).build(), (o.0, Some(Gray8::new(44)), o.2, o.3, o.4)),
+            ("stroke_width", b().stroke_width(11).build(), (o.0, o.1, 11, o.3, o.4)),
+            ("stroke_alignment", b().stroke_alignment(StrokeAlignment::Inside).build(), (o.0, o.1, o.2, StrokeAlignment::Inside, o.4)),
+            ("stroke_style", b().stroke_style(StrokeStyle::Solid).build(), (o.0, o.1, o.2, o.3, StrokeStyle::Solid)),
+        ];
+        for (name, got, want) in checks {
+            if f(&got) != want {
+                return Err(format!("FAIL entry point PrimitiveStyleBuilder::{}() gives {:?}, expected fields {:?}", name, got, want));
+            }
+        }
+    }
+    Ok(())
+}
+
+/// `Styled::new(p, st)` and `p.into_styled(st)` are the same value
+pub fn styled_new_check<T: Primitive + PartialEq + Copy + core::fmt::Debug>(prim: T, st: PrimitiveStyle<Gray8>) -> Result<(), String> {
+    let (a, b) = (Styled::new(prim, st), prim.into_styled(st));
+    if a.primitive != b.primitive || a.style != b.style {
+        return Err(format!("FAIL entry point Styled::new({:?}, ..) differs from into_styled()", prim));
+    }
+    Ok(())
 }
 
 fn scirc(c: Circle) -> String {
@@ -153,7 +245,11 @@ pub fn run(suite: &str, a: &[&str]) -> Option<String> {
     Some(match suite {
         "circ_styled" => {
             let c = Circle::new(pt(a[0], a[1]), u(a[2]));
-            let s = c.into_styled(style_of(a[3], a[4], a[5], a[6]));
+            let st = style_of(a[3], a[4], a[5], a[6]);
+            if let Err(e) = style_api_check(&st).and_then(|_| styled_new_check(c, st)) {
+                return Some(e);
+            }
+            let s = Styled::new(c, st);
             let (nat, it, pix) = render!(s);
             format!(
                 "SBB {} SA {} FA {} DRAW {} DRAWI {} PIX {}",
@@ -173,7 +269,11 @@ pub fn run(suite: &str, a: &[&str]) -> Option<String> {
         }
         "ell_styled" => {
             let e = Ellipse::new(pt(a[0], a[1]), Size::new(u(a[2]), u(a[3])));
-            let s = e.into_styled(style_of(a[4], a[5], a[6], a[7]));
+            let st = style_of(a[4], a[5], a[6], a[7]);
+            if let Err(m) = style_api_check(&st).and_then(|_| styled_new_check(e, st)) {
+                return Some(m);
+            }
+            let s = Styled::new(e, st);
             let (nat, it, pix) = render!(s);
             format!(
                 "SBB {} SA {} FA {} DRAW {} DRAWI {} PIX {}",
@@ -182,7 +282,11 @@ pub fn run(suite: &str, a: &[&str]) -> Option<String> {
         }
         "rect_styled" => {
             let r = rc(a[0], a[1], a[2], a[3]);
-            let s = r.into_styled(style_of(a[4], a[5], a[6], a[7]));
+            let st = style_of(a[4], a[5], a[6], a[7]);
+            if let Err(m) = style_api_check(&st).and_then(|_| styled_new_check(r, st)) {
+                return Some(m);
+            }
+            let s = Styled::new(r, st);
             let (nat, it, pix) = render!(s);
             format!(
                 "SBB {} SA {} FA {} DRAW {} DRAWI {} PIX {}",
@@ -195,11 +299,45 @@ pub fn run(suite: &str, a: &[&str]) -> Option<String> {
 
 pub fn search(suite: &str, a: &[&str]) -> Option<String> {
     Some(match suite {
+        // the style API alone: every constructor / setter / reset / conversion agrees with the field-by-field value, and a
+        // fill-only / stroke-only style drawn through with_fill / with_stroke + Styled::new equals the builder's image
+        "p_style_api" => {
+            let style = style_of(a[0], a[1], a[2], a[3]);
+            if let Err(m) = style_api_check(&style) {
+                return Some(m);
+            }
+            let c = Circle::new(Point::new(2, -3), 9);
+            let mut n = 0;
+            if let (Some(fc), None) = (style.fill_color, style.stroke_color) {
+                let (m1, _, p1) = render!(Styled::new(c, PrimitiveStyle::with_fill(fc)));
+                let (m2, _, p2) = render!(c.into_styled(PrimitiveStyleBuilder::new().fill_color(fc).build()));
+                if m1 != m2 || p1 != p2 || m1.values().any(|v| *v != FILL as u32) || m1.is_empty() {
+                    return Some("FAIL entry point PrimitiveStyle::with_fill: image differs from the builder's fill-only style".into());
+                }
+                n += m1.len();
+            }
+            if let (None, Some(sc)) = (style.fill_color, style.stroke_color) {
+                let (m1, _, p1) = render!(Styled::new(c, PrimitiveStyle::with_stroke(sc, style.stroke_width)));
+                let (m2, _, p2) = render!(c.into_styled(PrimitiveStyleBuilder::new().stroke_color(sc).stroke_width(style.stroke_width).build()));
+                if m1 != m2 || p1 != p2 || m1.values().any(|v| *v != STROKE as u32) {
+                    return Some("FAIL entry point PrimitiveStyle::with_stroke: image differs from the builder's stroke-only style".into());
+                }
+                n += m1.len();
+            }
+            format!("OK {}", n)
+        }
         "p_circ_c06" => {
             let c = Circle::new(pt(a[0], a[1]), u(a[2]));
             let style = style_of(a[3], a[4], a[5], a[6]);
+            if let Err(m) = style_api_check(&style).and_then(|_| styled_new_check(c, style)) {
+                return Some(m);
+            }
             let s = c.into_styled(style);
             let (nat, it, pix) = render!(s);
+            let (nat2, it2, pix2) = render!(Styled::new(c, style));
+            if nat2 != nat || it2 != it || pix2 != pix {
+                return Some("FAIL entry point Styled::new(circle, style) draws differently from into_styled()".into());
+            }
             let (fa, sa) = (s.fill_area(), s.stroke_area());
             let (out, ins) = split_width(style.stroke_width, a[4]);
             let d = c.diameter as i64;
@@ -227,8 +365,15 @@ pub fn search(suite: &str, a: &[&str]) -> Option<String> {
         "p_ell_c06" => {
             let e = Ellipse::new(pt(a[0], a[1]), Size::new(u(a[2]), u(a[3])));
             let style = style_of(a[4], a[5], a[6], a[7]);
+            if let Err(m) = style_api_check(&style).and_then(|_| styled_new_check(e, style)) {
+                return Some(m);
+            }
             let s = e.into_styled(style);
             let (nat, it, pix) = render!(s);
+            let (nat2, it2, pix2) = render!(Styled::new(e, style));
+            if nat2 != nat || it2 != it || pix2 != pix {
+                return Some("FAIL entry point Styled::new(ellipse, style) draws differently from into_styled()".into());
+            }
             let (fa, sa) = (s.fill_area(), s.stroke_area());
             let (out, ins) = split_width(style.stroke_width, a[5]);
             let (w, h) = (e.size.width as i64, e.size.height as i64);
@@ -256,8 +401,15 @@ pub fn search(suite: &str, a: &[&str]) -> Option<String> {
         "p_rect_c06" => {
             let r = rc(a[0], a[1], a[2], a[3]);
             let style = style_of(a[4], a[5], a[6], a[7]);
+            if let Err(m) = style_api_check(&style).and_then(|_| styled_new_check(r, style)) {
+                return Some(m);
+            }
             let s = r.into_styled(style);
             let (nat, it, pix) = render!(s);
+            let (nat2, it2, pix2) = render!(Styled::new(r, style));
+            if nat2 != nat || it2 != it || pix2 != pix {
+                return Some("FAIL entry point Styled::new(rectangle, style) draws differently from into_styled()".into());
+            }
             let (fa, sa) = (s.fill_area(), s.stroke_area());
             let (out, ins) = split_width(style.stroke_width, a[5]);
             let (w, h) = (r.size.width as i64, r.size.height as i64);
